@@ -1,5 +1,5 @@
 """C07 — dual hashes: canonical storage discipline of the RLE side table (structural clauses)."""
-from ..rules import tail, fields, eqord, parser, panic, rle, normal, casts, vis
+from ..rules import tail, fields, eqord, parser, panic, rle, normal, casts, vis, features
 
 EXPL = ("Decides: SA-TAIL: on every construction route the RLE block is terminator-filled from the encoder's final offset to the end and "
         "the normalised block hash is zero-filled from its stored length; every write into an RLE block anywhere in the crate is "
@@ -15,7 +15,7 @@ EXPL = ("Decides: SA-TAIL: on every construction route the RLE block is terminat
 
 
 def run(ctx):
-    cfgs = ["rel"] if ctx.tier == "quick" else ["rel", "dbg", "strict", "unsafe", "nodef"]
+    cfgs = ["rel", "unchecked"] if ctx.tier == "quick" else ["rel", "dbg", "strict", "unsafe", "nodef", "unchecked"]
     ctx.progs(cfgs)  # build all configurations in parallel
     for c in cfgs:
         prog = ctx.prog(c)
@@ -29,7 +29,10 @@ def run(ctx):
         ctx.guard("C07", "rle-formulas", lambda: rle.encoding(ctx, prog))
         ctx.guard("C07", "runs", lambda: normal.run_limit_agreement(ctx, prog))
         ctx.guard("C07", "rle-validator", lambda: rle.validator_refusals(ctx, prog))
+        ctx.guard("C07", "expand-step", lambda: rle.expand_step(ctx, prog))
         ctx.guard("C07", "traits", lambda: vis.trait_census(ctx, prog, scope='hash_dual::'))
+        if c == "unchecked":
+            ctx.guard("C07", "twins", lambda: features.twins(ctx, prog, scope='FuzzyHashDualData', floor=2))
         ctx.guard("C07", "casts", lambda: casts.census(ctx, prog, scope='hash_dual::', floor=3))
     return ctx.finish(EXPL, ["raw inputs of the compressor are valid raw block hashes (length <= capacity)"])
 
